@@ -18,6 +18,15 @@ package libaudit
 //@ log
 
 // ---------------------------------------------------------------------------
+// C11: lock and ownership discipline. The table's fields are only touched with
+// the table's mutex held (objects allocated by the running call are exempt:
+// they are still thread-local); the closed flag only through sync/atomic; the
+// mutex is never held while the Stream is called or when a method returns.
+//
+//@ guarded_by[C11] eventList.Mutex: eventList.seqs, eventList.events, eventList.lastSeq, eventList.hasLast, event.msgs!w, event.complete!w, event.expireTime!w
+//@ atomic_only[C11] Reassembler.closed
+
+// ---------------------------------------------------------------------------
 // Notation: lo(s), hi(s) are the absolute bounds of slice s inside its backing
 // array and at(s, k) the element at absolute index k, so that s[i] is
 // at(s, lo(s)+i). Quantifying over absolute positions keeps the invariants
@@ -70,7 +79,8 @@ package libaudit
 // backing array is untouched), nothing else changes.
 //
 //@ func (*libaudit.eventList).CleanUp
-//@ requires Base(l)
+//@ lockfree[C11] l.Mutex
+//@ requires Base(l) && !held(l.Mutex)
 //@ requires len(l.seqs) <= 274877906944 -- domain: fewer than 2^38 buffered events, so that the int counter cannot wrap
 //@ modifies l.seqs, l.lastSeq, l.hasLast, l.Mutex, mapOf(l.events), elemsOf(*event), alloc, clock
 //@ ensures[C01] Base(l)
@@ -82,6 +92,7 @@ package libaudit
 //@ ensures[C10] len(l.seqs) > 0 ==> !l.events[l.seqs[0]].complete && len(l.seqs) <= l.maxSize
 //@ ensures[C19] len(l.seqs) > 0 ==> !(clock() > l.events[l.seqs[0]].expireTime)
 //@ ensures[C10] forall i int :: 0 <= i && i < len(result0) ==> result0[i].complete || old(len(l.seqs)) - i > l.maxSize || result0[i].expireTime < clock()
+//@ ensures[C02] old(Sorted(l)) ==> Sorted(l) && (forall j, k int :: old(lo(l.seqs)) <= j && j < lo(l.seqs) && lo(l.seqs) <= k && k < hi(l.seqs) ==> less(at(l.seqs, j), at(l.seqs, k)))
 //@ ensures[C03] result1 == fLost(lo(l.seqs), old(l.seqs), old(lo(l.seqs)), old(l.lastSeq), old(l.hasLast)) && result1 >= 0
 //@ ensures[C03] l.lastSeq == fHW(lo(l.seqs), old(l.seqs), old(lo(l.seqs)), old(l.lastSeq), old(l.hasLast))
 //@ ensures[C03] l.hasLast == (old(l.hasLast) || len(result0) > 0)
@@ -96,14 +107,15 @@ package libaudit
 //@ loop 0 invariant[C03] lost == fLost(lo(l.seqs), old(l.seqs), old(lo(l.seqs)), old(l.lastSeq), old(l.hasLast)) && lost >= 0 && lost <= len(evicted) * 16777215
 //@ loop 0 invariant[C03] l.lastSeq == fHW(lo(l.seqs), old(l.seqs), old(lo(l.seqs)), old(l.lastSeq), old(l.hasLast))
 //@ loop 0 invariant[C03] l.hasLast == (old(l.hasLast) || len(evicted) > 0)
-//@ loop 0 invariant held(l.Mutex)
+//@ loop 0 invariant[C11] held(l.Mutex)
 //@ loop 0 decreases len(l.seqs)
 
 // ---------------------------------------------------------------------------
 // Clear evicts everything (Close).
 //
 //@ func (*libaudit.eventList).Clear
-//@ requires Base(l)
+//@ lockfree[C11] l.Mutex
+//@ requires Base(l) && !held(l.Mutex)
 //@ requires len(l.seqs) <= 274877906944
 //@ modifies l.seqs, l.lastSeq, l.hasLast, l.Mutex, mapOf(l.events), elemsOf(*event), alloc
 //@ ensures[C01] Base(l) && len(l.seqs) == 0 && len(result0) == old(len(l.seqs))
@@ -121,7 +133,7 @@ package libaudit
 //@ loop 0 invariant[C03] lost == fLost(lo(l.seqs), old(l.seqs), old(lo(l.seqs)), old(l.lastSeq), old(l.hasLast)) && lost >= 0 && lost <= len(evicted) * 16777215
 //@ loop 0 invariant[C03] l.lastSeq == fHW(lo(l.seqs), old(l.seqs), old(lo(l.seqs)), old(l.lastSeq), old(l.hasLast))
 //@ loop 0 invariant[C03] l.hasLast == (old(l.hasLast) || len(evicted) > 0)
-//@ loop 0 invariant held(l.Mutex)
+//@ loop 0 invariant[C11] held(l.Mutex)
 //@ loop 0 decreases len(l.seqs)
 
 // ---------------------------------------------------------------------------
@@ -147,8 +159,9 @@ package libaudit
 //@   && (forall k int :: lo(e.msgs) <= k && k < hi(e.msgs) ==> at(e.msgs, k) == old(at(e.msgs, k)))
 //
 //@ func (*libaudit.eventList).Put
+//@ lockfree[C11] l.Mutex
 //@ forall-params w sequenceNum
-//@ requires Base(l) && MsgsOK(l) && msg != nil
+//@ requires Base(l) && MsgsOK(l) && msg != nil && !held(l.Mutex)
 //@ modifies l.seqs, l.Mutex, mapOf(l.events), elemsOf(sequenceNum), event.msgs, event.complete, event.expireTime, elemsOf(*auparse.AuditMessage), alloc, clock
 //@ ensures[C01] BaseLen(l)
 //@ ensures[C01] BaseAlloc(l)
@@ -185,10 +198,11 @@ package libaudit
 // callback hands the evicted events to the Stream, in order, then reports the loss.
 //
 //@ func (*libaudit.Reassembler).callback
-//@ requires r.stream != nil
+//@ lockfree[C11] r.list.Mutex
+//@ requires r.stream != nil && r.list != nil && !held(r.list.Mutex)
 //@ requires forall k int :: lo(events) <= k && k < hi(events) ==> at(events, k) != nil
 //@ modifies envlog
-//@ ensures[C01] envlen() == old(envlen()) + len(events) + (if lost > 0 then 1 else 0)
+//@ ensures[C01,C03] envlen() == old(envlen()) + len(events) + (if lost > 0 then 1 else 0)
 //@ ensures[C01] forall i int :: 0 <= i && i < len(events) ==> envkind(old(envlen()) + i) == envkindOf(libaudit.Stream.ReassemblyComplete) && envarg(old(envlen()) + i, 0) == base(events[i].msgs) && envarg(old(envlen()) + i, 1) == lo(events[i].msgs) && envarg(old(envlen()) + i, 2) == len(events[i].msgs)
 //@ ensures[C03] lost > 0 ==> envkind(envlen() - 1) == envkindOf(libaudit.Stream.EventsLost) && envarg(envlen() - 1, 0) == lost
 //@ ensures[C01] forall i int :: 0 <= i && i < old(envlen()) ==> envkind(i) == old(envkind(i)) && (forall a int :: envarg(i, a) == old(envarg(i, a)))
@@ -209,6 +223,7 @@ package libaudit
 //@ ensures[C19] envlen() == old(envlen())
 //
 //@ func (*libaudit.Reassembler).PushMessage
+//@ lockfree[C11] r.list.Mutex
 //@ requires r.list != nil && r.stream != nil && Base(r.list) && MsgsOK(r.list) && len(r.list.seqs) < 274877906944 && !held(r.list.Mutex)
 //@ modifies r.list.seqs, r.list.lastSeq, r.list.hasLast, r.list.Mutex, mapOf(r.list.events), elemsOf(sequenceNum), elemsOf(*event), event.msgs, event.complete, event.expireTime, elemsOf(*auparse.AuditMessage), alloc, clock, envlog
 //@ ensures[C01] Base(r.list) && MsgsOK(r.list)
@@ -219,6 +234,7 @@ package libaudit
 //@ ensures[C11] !held(r.list.Mutex)
 //
 //@ func (*libaudit.Reassembler).Maintain
+//@ lockfree[C11] r.list.Mutex
 //@ requires r.list != nil && r.stream != nil && Base(r.list) && len(r.list.seqs) < 274877906944 && !held(r.list.Mutex)
 //@ modifies r.list.seqs, r.list.lastSeq, r.list.hasLast, r.list.Mutex, mapOf(r.list.events), elemsOf(*event), alloc, clock, envlog
 //@ ensures[C19] old(r.closed) == 1 ==> result0 != nil && envlen() == old(envlen()) && len(r.list.seqs) == old(len(r.list.seqs))
@@ -227,8 +243,18 @@ package libaudit
 //@ ensures[C11] !held(r.list.Mutex)
 //
 //@ func (*libaudit.Reassembler).Close
+//@ lockfree[C11] r.list.Mutex
 //@ requires r.list != nil && r.stream != nil && Base(r.list) && len(r.list.seqs) < 274877906944 && !held(r.list.Mutex)
 //@ modifies r.closed, r.list.seqs, r.list.lastSeq, r.list.hasLast, r.list.Mutex, mapOf(r.list.events), elemsOf(*event), alloc, envlog
 //@ ensures[C19] old(r.closed) == 0 ==> result0 == nil && r.closed == 1 && len(r.list.seqs) == 0 && envlen() >= old(envlen()) + old(len(r.list.seqs))
 //@ ensures[C19] old(r.closed) != 0 ==> result0 != nil && r.closed == old(r.closed) && envlen() == old(envlen()) && len(r.list.seqs) == old(len(r.list.seqs))
+//@ ensures[C11] !held(r.list.Mutex)
+//
+// Push parses and then pushes; a record whose header does not parse is not pushed.
+//@ func (*libaudit.Reassembler).Push
+//@ lockfree[C11] r.list.Mutex
+//@ requires r.list != nil && r.stream != nil && Base(r.list) && MsgsOK(r.list) && len(r.list.seqs) < 274877906944 && !held(r.list.Mutex)
+//@ modifies r.list.seqs, r.list.lastSeq, r.list.hasLast, r.list.Mutex, mapOf(r.list.events), elemsOf(sequenceNum), elemsOf(*event), event.msgs, event.complete, event.expireTime, elemsOf(*auparse.AuditMessage), alloc, clock, envlog
+//@ ensures[C01] Base(r.list) && MsgsOK(r.list)
+//@ ensures[C01] result0 != nil ==> envlen() == old(envlen()) && len(r.list.seqs) == old(len(r.list.seqs))
 //@ ensures[C11] !held(r.list.Mutex)
